@@ -432,21 +432,21 @@ module Coq_Pos =
 
   (** val of_uint_acc : uint -> positive -> positive **)
 
-  let rec of_uint_acc d acc =
+  let rec of_uint_acc d acc0 =
     match d with
-    | Nil -> acc
-    | D0 l -> of_uint_acc l (mul (XO (XI (XO XH))) acc)
-    | D1 l -> of_uint_acc l (add XH (mul (XO (XI (XO XH))) acc))
-    | D2 l -> of_uint_acc l (add (XO XH) (mul (XO (XI (XO XH))) acc))
-    | D3 l -> of_uint_acc l (add (XI XH) (mul (XO (XI (XO XH))) acc))
-    | D4 l -> of_uint_acc l (add (XO (XO XH)) (mul (XO (XI (XO XH))) acc))
-    | D5 l -> of_uint_acc l (add (XI (XO XH)) (mul (XO (XI (XO XH))) acc))
-    | D6 l -> of_uint_acc l (add (XO (XI XH)) (mul (XO (XI (XO XH))) acc))
-    | D7 l -> of_uint_acc l (add (XI (XI XH)) (mul (XO (XI (XO XH))) acc))
+    | Nil -> acc0
+    | D0 l -> of_uint_acc l (mul (XO (XI (XO XH))) acc0)
+    | D1 l -> of_uint_acc l (add XH (mul (XO (XI (XO XH))) acc0))
+    | D2 l -> of_uint_acc l (add (XO XH) (mul (XO (XI (XO XH))) acc0))
+    | D3 l -> of_uint_acc l (add (XI XH) (mul (XO (XI (XO XH))) acc0))
+    | D4 l -> of_uint_acc l (add (XO (XO XH)) (mul (XO (XI (XO XH))) acc0))
+    | D5 l -> of_uint_acc l (add (XI (XO XH)) (mul (XO (XI (XO XH))) acc0))
+    | D6 l -> of_uint_acc l (add (XO (XI XH)) (mul (XO (XI (XO XH))) acc0))
+    | D7 l -> of_uint_acc l (add (XI (XI XH)) (mul (XO (XI (XO XH))) acc0))
     | D8 l ->
-      of_uint_acc l (add (XO (XO (XO XH))) (mul (XO (XI (XO XH))) acc))
+      of_uint_acc l (add (XO (XO (XO XH))) (mul (XO (XI (XO XH))) acc0))
     | D9 l ->
-      of_uint_acc l (add (XI (XO (XO XH))) (mul (XO (XI (XO XH))) acc))
+      of_uint_acc l (add (XI (XO (XO XH))) (mul (XO (XI (XO XH))) acc0))
 
   (** val of_uint : uint -> n **)
 
@@ -1546,8 +1546,8 @@ let m_insert m k v =
 (** val mapping_merge : mapping -> mapping -> mapping res **)
 
 let mapping_merge m other =
-  foldM (fun acc e ->
-    insert_impl acc (e_key e) (e_val e) (e_const e) (e_over e)) other m
+  foldM (fun acc0 e ->
+    insert_impl acc0 (e_key e) (e_val e) (e_const e) (e_over e)) other m
 
 (** val merge_core : string -> value -> value -> value res **)
 
@@ -1594,15 +1594,15 @@ let rec flattened ck v = match v with
 | VStr _ -> Err (EFlattenString ck)
 | VMap es ->
   rmap (fun x -> VMap x)
-    (let rec go es0 acc =
+    (let rec go es0 acc0 =
        match es0 with
-       | [] -> Ok acc
+       | [] -> Ok acc0
        | e :: es' ->
          let (p, o) = e in
          let (p0, c) = p in
          let (k, v0) = p0 in
          bind (flattened ck v0) (fun fv ->
-           bind (insert_impl acc k fv c o) (fun acc' -> go es' acc'))
+           bind (insert_impl acc0 k fv c o) (fun acc' -> go es' acc'))
      in go es [])
 | VSeq s ->
   rmap (fun x -> VSeq x)
@@ -1659,14 +1659,14 @@ let rec value_of_yaml = function
      in go l)
 | YMap l ->
   rmap (fun x -> VMap x)
-    (let rec go l0 acc =
+    (let rec go l0 acc0 =
        match l0 with
-       | [] -> Ok acc
+       | [] -> Ok acc0
        | p :: l' ->
          let (k, v) = p in
          bind (value_of_yaml k) (fun kv ->
            bind (value_of_yaml v) (fun vv ->
-             match m_insert acc kv vv with
+             match m_insert acc0 kv vv with
              | Ok acc' -> go l' acc'
              | Err _ -> Panic PMappingFromUnwrap
              | x -> x))
@@ -1762,15 +1762,15 @@ let rec to_json = function
 | VNum n0 -> Ok (num_to_json n0)
 | VMap es ->
   rmap (fun x -> JObj x)
-    (let rec go es0 acc =
+    (let rec go es0 acc0 =
        match es0 with
-       | [] -> Ok acc
+       | [] -> Ok acc0
        | e :: es' ->
          let (p, _) = e in
          let (p0, _) = p in
          let (k, v0) = p0 in
          bind (json_key k) (fun ks ->
-           bind (to_json v0) (fun jv -> go es' (bt_insert ks jv acc)))
+           bind (to_json v0) (fun jv -> go es' (bt_insert ks jv acc0)))
      in go es [])
 | VSeq s ->
   rmap (fun x -> JArr x)
@@ -2098,17 +2098,17 @@ let take1 = function
 (** val many1_rest :
     nat -> 'a1 parser0 -> string -> 'a1 list -> 'a1 list pres **)
 
-let rec many1_rest n0 p s acc =
+let rec many1_rest n0 p s acc0 =
   match n0 with
   | O -> PFuel
   | S n' ->
     (match p s with
-     | PFail -> POk (s, (rev0 acc))
+     | PFail -> POk (s, (rev0 acc0))
      | PFuel -> PFuel
      | POk (r, a) ->
        if Nat.eqb (length0 r) (length0 s)
        then PFail
-       else many1_rest n' p r (a :: acc))
+       else many1_rest n' p r (a :: acc0))
 
 (** val many1 : 'a1 parser0 -> ('a1 * 'a1 list) parser0 **)
 
@@ -2265,18 +2265,18 @@ let ref_string =
 
 (** val coalesce_rev : token list -> token list -> token list **)
 
-let rec coalesce_rev acc = function
-| [] -> rev0 acc
+let rec coalesce_rev acc0 = function
+| [] -> rev0 acc0
 | t :: ts' ->
-  (match acc with
-   | [] -> coalesce_rev (t :: acc) ts'
+  (match acc0 with
+   | [] -> coalesce_rev (t :: acc0) ts'
    | t0 :: acc' ->
      (match t0 with
       | TLit a ->
         (match t with
          | TLit b -> coalesce_rev ((TLit (append a b)) :: acc') ts'
-         | _ -> coalesce_rev (t :: acc) ts')
-      | _ -> coalesce_rev (t :: acc) ts'))
+         | _ -> coalesce_rev (t :: acc0) ts')
+      | _ -> coalesce_rev (t :: acc0) ts'))
 
 (** val coalesce : (token * token list) -> token list **)
 
@@ -2626,9 +2626,9 @@ and mapping_interp f root m st =
   match f with
   | O -> OutOfFuel
   | S f' ->
-    let rec go es acc =
+    let rec go es acc0 =
       match es with
-      | [] -> Ok acc
+      | [] -> Ok acc0
       | e :: es' ->
         let (p, o) = e in
         let (p0, c) = p in
@@ -2637,7 +2637,7 @@ and mapping_interp f root m st =
           bind (interp f' root v st1) (fun pat ->
             let (v', st2) = pat in
             bind (flattened (current_key st2) v') (fun fv ->
-              bind (insert_impl acc k fv c o) (fun acc' -> go es' acc'))))
+              bind (insert_impl acc0 k fv c o) (fun acc' -> go es' acc'))))
     in go m []
 
 (** val token_render :
@@ -2951,16 +2951,16 @@ let rec p_yaml f ts =
                                              true, false, false, true, false))
                                         then (match nat_of_string body with
                                               | Some n0 ->
-                                                let rec go n1 ts0 acc =
+                                                let rec go n1 ts0 acc0 =
                                                   match n1 with
                                                   | O ->
-                                                    Some ((YSeq (rev0 acc)),
+                                                    Some ((YSeq (rev0 acc0)),
                                                       ts0)
                                                   | S n' ->
                                                     (match p_yaml f' ts0 with
                                                      | Some p ->
                                                        let (y, ts1) = p in
-                                                       go n' ts1 (y :: acc)
+                                                       go n' ts1 (y :: acc0)
                                                      | None -> None)
                                                 in go n0 ts' []
                                               | None -> None)
@@ -2969,11 +2969,11 @@ let rec p_yaml f ts =
                                                   true, false))
                                              then (match nat_of_string body with
                                                    | Some n0 ->
-                                                     let rec go n1 ts0 acc =
+                                                     let rec go n1 ts0 acc0 =
                                                        match n1 with
                                                        | O ->
                                                          Some ((YMap
-                                                           (rev0 acc)), ts0)
+                                                           (rev0 acc0)), ts0)
                                                        | S n' ->
                                                          (match p_yaml f' ts0 with
                                                           | Some p ->
@@ -2986,7 +2986,7 @@ let rec p_yaml f ts =
                                                                  p0
                                                                in
                                                                go n' ts2 ((k,
-                                                                 v) :: acc)
+                                                                 v) :: acc0)
                                                              | None -> None)
                                                           | None -> None)
                                                      in go n0 ts' []
@@ -3971,13 +3971,13 @@ let kind_name = function
 (** val discover_from :
     ekind -> bool -> string list list -> entity list -> entity list res **)
 
-let rec discover_from kind compose entries acc =
+let rec discover_from kind compose entries acc0 =
   match entries with
-  | [] -> Ok acc
+  | [] -> Ok acc0
   | p :: rest ->
     (match entity_of kind compose p with
      | Some e ->
-       (match find_entity e.en_name acc with
+       (match find_entity e.en_name acc0 with
         | Some prev ->
           let a =
             join (String ((Ascii (true, true, true, true, false, true, false,
@@ -3990,8 +3990,8 @@ let rec discover_from kind compose entries acc =
           if ltb0 a b
           then Err (EDuplicate ((kind_name kind), e.en_name, a, b))
           else Err (EDuplicate ((kind_name kind), e.en_name, b, a))
-        | None -> discover_from kind compose rest (app acc (e :: [])))
-     | None -> discover_from kind compose rest acc)
+        | None -> discover_from kind compose rest (app acc0 (e :: [])))
+     | None -> discover_from kind compose rest acc0)
 
 (** val discover : ekind -> bool -> string list list -> entity list res **)
 
@@ -4570,9 +4570,9 @@ let rec spec_json = function
               (append (String ((Ascii (false, true, false, true, true, true,
                 false, false)), EmptyString)) t)) kvs)) (String ((Ascii
         (true, false, true, true, true, true, true, false)), EmptyString))))
-    (let rec go es0 acc =
+    (let rec go es0 acc0 =
        match es0 with
-       | [] -> Some acc
+       | [] -> Some acc0
        | e :: es' ->
          let (p, _) = e in
          let (p0, _) = p in
@@ -4580,7 +4580,7 @@ let rec spec_json = function
          (match spec_key k with
           | Some ks ->
             (match spec_json x with
-             | Some t -> go es' (sorted_insert ks t acc)
+             | Some t -> go es' (sorted_insert ks t acc0)
              | None -> None)
           | None -> None)
      in go es [])
@@ -4637,6 +4637,138 @@ let text_of v = match v with
 | VList _ -> None
 | _ -> spec_json v
 
+type serr =
+| SConst of value
+| SConflict
+| SPanic of site
+
+type 'a sres =
+| SOk of 'a
+| SErr of serr
+| SFuel
+
+(** val sbind : 'a1 sres -> ('a1 -> 'a2 sres) -> 'a2 sres **)
+
+let sbind r f =
+  match r with
+  | SOk a -> f a
+  | SErr e -> SErr e
+  | SFuel -> SFuel
+
+type slot = { sl_key : value; sl_pending : yaml list; sl_const : bool }
+
+type acc =
+| ANull
+| AScalar of value
+| ASeq of yaml list
+| AMaps of slot list
+
+(** val key_of : yaml -> (value * prefix option) sres **)
+
+let key_of = function
+| YNull -> SOk (VNull, None)
+| YBool b -> SOk ((VBool b), None)
+| YNum n0 -> SOk ((VNum n0), None)
+| YStr s -> SOk (strip_prefix (VStr s))
+| YTagged (_, _) -> SErr (SPanic PYamlTagged)
+| _ -> SErr SConflict
+
+(** val slot_write :
+    value -> prefix option -> yaml -> slot list -> slot list sres **)
+
+let rec slot_write k p v = function
+| [] ->
+  SOk ({ sl_key = k; sl_pending = (v :: []); sl_const = (is_pconst p) } :: [])
+| s :: rest ->
+  if value_eqb s.sl_key k
+  then if s.sl_const
+       then SErr (SConst k)
+       else SOk ({ sl_key = k; sl_pending =
+              (if is_pover p then v :: [] else app s.sl_pending (v :: []));
+              sl_const = (is_pconst p) } :: rest)
+  else sbind (slot_write k p v rest) (fun r -> SOk (s :: r))
+
+(** val collect : (yaml * yaml) list -> slot list -> slot list sres **)
+
+let rec collect entries slots =
+  match entries with
+  | [] -> SOk slots
+  | p :: rest ->
+    let (k, v) = p in
+    sbind (key_of k) (fun pat ->
+      let (kv, p0) = pat in
+      sbind (slot_write kv p0 v slots) (fun slots' -> collect rest slots'))
+
+(** val scalar_of : yaml -> value option **)
+
+let scalar_of = function
+| YNull -> Some VNull
+| YBool b -> Some (VBool b)
+| YNum n0 -> Some (VNum n0)
+| YStr s -> Some (VLit s)
+| _ -> None
+
+(** val combine : acc -> yaml -> acc sres **)
+
+let combine a y = match y with
+| YNull -> SOk ANull
+| YSeq l ->
+  (match a with
+   | ANull -> SOk (ASeq l)
+   | ASeq l0 -> SOk (ASeq (app l0 l))
+   | _ -> SErr SConflict)
+| YMap es ->
+  (match a with
+   | ANull -> sbind (collect es []) (fun s -> SOk (AMaps s))
+   | AMaps slots -> sbind (collect es slots) (fun s -> SOk (AMaps s))
+   | _ -> SErr SConflict)
+| YTagged (_, _) -> SErr (SPanic PYamlTagged)
+| _ ->
+  (match a with
+   | ANull ->
+     (match scalar_of y with
+      | Some v -> SOk (AScalar v)
+      | None -> SErr SConflict)
+   | AScalar _ ->
+     (match scalar_of y with
+      | Some v -> SOk (AScalar v)
+      | None -> SErr SConflict)
+   | _ -> SErr SConflict)
+
+(** val combine_all : acc -> yaml list -> acc sres **)
+
+let rec combine_all a = function
+| [] -> SOk a
+| y :: ys' -> sbind (combine a y) (fun a' -> combine_all a' ys')
+
+(** val deep_merge : nat -> yaml list -> value sres **)
+
+let rec deep_merge f ys =
+  match f with
+  | O -> SFuel
+  | S f' ->
+    sbind (combine_all ANull ys) (fun a ->
+      match a with
+      | ANull -> SOk VNull
+      | AScalar v -> SOk v
+      | ASeq l ->
+        sbind
+          (let rec go = function
+           | [] -> SOk []
+           | x :: xs ->
+             sbind (deep_merge f' (x :: [])) (fun v ->
+               sbind (go xs) (fun vs -> SOk (v :: vs)))
+           in go l) (fun vs -> SOk (VSeq vs))
+      | AMaps slots ->
+        sbind
+          (let rec go = function
+           | [] -> SOk []
+           | s :: rest ->
+             sbind (deep_merge f' s.sl_pending) (fun v ->
+               sbind (go rest) (fun es -> SOk ((((s.sl_key, v), false),
+                 false) :: es)))
+           in go slots) (fun es -> SOk (VMap es)))
+
 (** val run_fuel : nat **)
 
 let run_fuel =
@@ -4645,8 +4777,8 @@ let run_fuel =
 (** val merge_layers : yaml list -> mapping res **)
 
 let merge_layers ys =
-  foldM (fun acc y ->
-    bind (mapping_of_yaml y) (fun m -> mapping_merge acc m)) ys []
+  foldM (fun acc0 y ->
+    bind (mapping_of_yaml y) (fun m -> mapping_merge acc0 m)) ys []
 
 (** val run_merge : string list -> string **)
 
@@ -5079,9 +5211,11 @@ let run_list = function
                   true, false)), (String ((Ascii (true, true, false, true,
                   false, true, true, false)), EmptyString))))
                   (canon_strs
-                    (fold_left (fun acc l0 -> u_merge acc (u_from l0)) ls []))
+                    (fold_left (fun acc0 l0 -> u_merge acc0 (u_from l0)) ls
+                      []))
            else let r =
-                  fold_left (fun acc l0 -> r_merge acc (r_from l0)) ls r_empty
+                  fold_left (fun acc0 l0 -> r_merge acc0 (r_from l0)) ls
+                    r_empty
                 in
                 sp (String ((Ascii (true, true, true, true, false, true,
                   true, false)), (String ((Ascii (true, true, false, true,
@@ -5416,14 +5550,14 @@ let canon_nodeinfo i =
 (** val sort_index : index -> index **)
 
 let sort_index ix =
-  fold_right (fun pat acc ->
+  fold_right (fun pat acc0 ->
     let (k, ns) = pat in
     let rec ins l = match l with
     | [] -> (k, ns) :: []
     | p :: l' ->
       let (k', ns') = p in
       if leb0 k k' then (k, ns) :: l else (k', ns') :: (ins l')
-    in ins acc) [] ix
+    in ins acc0) [] ix
 
 (** val canon_index : index -> string **)
 
@@ -7067,3 +7201,259 @@ let run_line3 line =
             EmptyString))))))))))))
        then append id (append tab (run_textof ts))
        else run_line2 line)
+
+(** val run_spec : string list -> string **)
+
+let run_spec = function
+| [] ->
+  String ((Ascii (false, true, false, false, false, true, true, false)),
+    (String ((Ascii (true, false, false, false, false, true, true, false)),
+    (String ((Ascii (false, false, true, false, false, true, true, false)),
+    (String ((Ascii (true, true, false, false, false, true, true, false)),
+    (String ((Ascii (true, false, false, false, false, true, true, false)),
+    (String ((Ascii (true, true, false, false, true, true, true, false)),
+    (String ((Ascii (true, false, true, false, false, true, true, false)),
+    EmptyString)))))))))))))
+| n0 :: ts' ->
+  (match nat_of_string n0 with
+   | Some n1 ->
+     (match p_yamls n1 ts' with
+      | Some p ->
+        let (ys, l) = p in
+        (match l with
+         | [] ->
+           (match deep_merge run_fuel ys with
+            | SOk v ->
+              sp (String ((Ascii (true, true, true, true, false, true, true,
+                false)), (String ((Ascii (true, true, false, true, false,
+                true, true, false)), EmptyString)))) (canon false v)
+            | SErr e ->
+              (match e with
+               | SConst k ->
+                 sp (String ((Ascii (true, false, true, false, false, true,
+                   true, false)), (String ((Ascii (false, true, false, false,
+                   true, true, true, false)), (String ((Ascii (false, true,
+                   false, false, true, true, true, false)), (String ((Ascii
+                   (false, false, false, false, false, true, false, false)),
+                   (String ((Ascii (true, false, true, false, false, false,
+                   true, false)), (String ((Ascii (true, true, false, false,
+                   false, false, true, false)), (String ((Ascii (true, true,
+                   true, true, false, true, true, false)), (String ((Ascii
+                   (false, true, true, true, false, true, true, false)),
+                   (String ((Ascii (true, true, false, false, true, true,
+                   true, false)), (String ((Ascii (false, false, true, false,
+                   true, true, true, false)), EmptyString))))))))))))))))))))
+                   (canon false k)
+               | SConflict ->
+                 String ((Ascii (true, false, true, false, false, true, true,
+                   false)), (String ((Ascii (false, true, false, false, true,
+                   true, true, false)), (String ((Ascii (false, true, false,
+                   false, true, true, true, false)), (String ((Ascii (false,
+                   false, false, false, false, true, false, false)), (String
+                   ((Ascii (true, false, true, false, false, false, true,
+                   false)), (String ((Ascii (true, false, true, true, false,
+                   false, true, false)), (String ((Ascii (true, false, true,
+                   false, false, true, true, false)), (String ((Ascii (false,
+                   true, false, false, true, true, true, false)), (String
+                   ((Ascii (true, true, true, false, false, true, true,
+                   false)), (String ((Ascii (true, false, true, false, false,
+                   true, true, false)), EmptyString)))))))))))))))))))
+               | SPanic s ->
+                 sp (String ((Ascii (false, false, false, false, true, true,
+                   true, false)), (String ((Ascii (true, false, false, false,
+                   false, true, true, false)), (String ((Ascii (false, true,
+                   true, true, false, true, true, false)), (String ((Ascii
+                   (true, false, false, true, false, true, true, false)),
+                   (String ((Ascii (true, true, false, false, false, true,
+                   true, false)), EmptyString)))))))))) (site_name s))
+            | SFuel ->
+              String ((Ascii (false, true, true, false, false, true, true,
+                false)), (String ((Ascii (true, false, true, false, true,
+                true, true, false)), (String ((Ascii (true, false, true,
+                false, false, true, true, false)), (String ((Ascii (false,
+                false, true, true, false, true, true, false)),
+                EmptyString))))))))
+         | _ :: _ ->
+           String ((Ascii (false, true, false, false, false, true, true,
+             false)), (String ((Ascii (true, false, false, false, false,
+             true, true, false)), (String ((Ascii (false, false, true, false,
+             false, true, true, false)), (String ((Ascii (true, true, false,
+             false, false, true, true, false)), (String ((Ascii (true, false,
+             false, false, false, true, true, false)), (String ((Ascii (true,
+             true, false, false, true, true, true, false)), (String ((Ascii
+             (true, false, true, false, false, true, true, false)),
+             EmptyString))))))))))))))
+      | None ->
+        String ((Ascii (false, true, false, false, false, true, true,
+          false)), (String ((Ascii (true, false, false, false, false, true,
+          true, false)), (String ((Ascii (false, false, true, false, false,
+          true, true, false)), (String ((Ascii (true, true, false, false,
+          false, true, true, false)), (String ((Ascii (true, false, false,
+          false, false, true, true, false)), (String ((Ascii (true, true,
+          false, false, true, true, true, false)), (String ((Ascii (true,
+          false, true, false, false, true, true, false)),
+          EmptyString))))))))))))))
+   | None ->
+     String ((Ascii (false, true, false, false, false, true, true, false)),
+       (String ((Ascii (true, false, false, false, false, true, true,
+       false)), (String ((Ascii (false, false, true, false, false, true,
+       true, false)), (String ((Ascii (true, true, false, false, false, true,
+       true, false)), (String ((Ascii (true, false, false, false, false,
+       true, true, false)), (String ((Ascii (true, true, false, false, true,
+       true, true, false)), (String ((Ascii (true, false, true, false, false,
+       true, true, false)), EmptyString))))))))))))))
+
+(** val run_value2 : string list -> string **)
+
+let run_value2 = function
+| [] ->
+  String ((Ascii (false, true, false, false, false, true, true, false)),
+    (String ((Ascii (true, false, false, false, false, true, true, false)),
+    (String ((Ascii (false, false, true, false, false, true, true, false)),
+    (String ((Ascii (true, true, false, false, false, true, true, false)),
+    (String ((Ascii (true, false, false, false, false, true, true, false)),
+    (String ((Ascii (true, true, false, false, true, true, true, false)),
+    (String ((Ascii (true, false, true, false, false, true, true, false)),
+    EmptyString)))))))))))))
+| n0 :: ts' ->
+  (match nat_of_string n0 with
+   | Some n1 ->
+     (match p_yamls n1 ts' with
+      | Some p ->
+        let (ys, l) = p in
+        (match l with
+         | [] ->
+           (match bind (merge_layers ys) (fun m ->
+                    render_with_self run_fuel (VMap m)) with
+            | Ok v1 ->
+              (match render_with_self run_fuel v1 with
+               | Ok v2 ->
+                 append (String ((Ascii (true, true, true, true, false, true,
+                   true, false)), (String ((Ascii (true, true, false, true,
+                   false, true, true, false)), (String ((Ascii (false, false,
+                   false, false, false, true, false, false)),
+                   EmptyString))))))
+                   (append (canon false v1)
+                     (append (String ((Ascii (false, false, false, false,
+                       false, true, false, false)), (String ((Ascii (false,
+                       false, true, true, true, true, true, false)), (String
+                       ((Ascii (false, false, true, true, true, true, true,
+                       false)), (String ((Ascii (false, false, false, false,
+                       false, true, false, false)), EmptyString))))))))
+                       (canon false v2)))
+               | Err e ->
+                 append (String ((Ascii (true, true, true, true, false, true,
+                   true, false)), (String ((Ascii (true, true, false, true,
+                   false, true, true, false)), (String ((Ascii (false, false,
+                   false, false, false, true, false, false)),
+                   EmptyString))))))
+                   (append (canon false v1)
+                     (append (String ((Ascii (false, false, false, false,
+                       false, true, false, false)), (String ((Ascii (false,
+                       false, true, true, true, true, true, false)), (String
+                       ((Ascii (false, false, true, true, true, true, true,
+                       false)), (String ((Ascii (false, false, false, false,
+                       false, true, false, false)), EmptyString))))))))
+                       (canon_res (canon false) (Err e))))
+               | Panic s ->
+                 append (String ((Ascii (true, true, true, true, false, true,
+                   true, false)), (String ((Ascii (true, true, false, true,
+                   false, true, true, false)), (String ((Ascii (false, false,
+                   false, false, false, true, false, false)),
+                   EmptyString))))))
+                   (append (canon false v1)
+                     (append (String ((Ascii (false, false, false, false,
+                       false, true, false, false)), (String ((Ascii (false,
+                       false, true, true, true, true, true, false)), (String
+                       ((Ascii (false, false, true, true, true, true, true,
+                       false)), (String ((Ascii (false, false, false, false,
+                       false, true, false, false)), EmptyString))))))))
+                       (canon_res (canon false) (Panic s))))
+               | OutOfFuel ->
+                 append (String ((Ascii (true, true, true, true, false, true,
+                   true, false)), (String ((Ascii (true, true, false, true,
+                   false, true, true, false)), (String ((Ascii (false, false,
+                   false, false, false, true, false, false)),
+                   EmptyString))))))
+                   (append (canon false v1)
+                     (append (String ((Ascii (false, false, false, false,
+                       false, true, false, false)), (String ((Ascii (false,
+                       false, true, true, true, true, true, false)), (String
+                       ((Ascii (false, false, true, true, true, true, true,
+                       false)), (String ((Ascii (false, false, false, false,
+                       false, true, false, false)), EmptyString))))))))
+                       (canon_res (canon false) OutOfFuel))))
+            | Err e -> canon_res (canon false) (Err e)
+            | Panic s -> canon_res (canon false) (Panic s)
+            | OutOfFuel -> canon_res (canon false) OutOfFuel)
+         | _ :: _ ->
+           String ((Ascii (false, true, false, false, false, true, true,
+             false)), (String ((Ascii (true, false, false, false, false,
+             true, true, false)), (String ((Ascii (false, false, true, false,
+             false, true, true, false)), (String ((Ascii (true, true, false,
+             false, false, true, true, false)), (String ((Ascii (true, false,
+             false, false, false, true, true, false)), (String ((Ascii (true,
+             true, false, false, true, true, true, false)), (String ((Ascii
+             (true, false, true, false, false, true, true, false)),
+             EmptyString))))))))))))))
+      | None ->
+        String ((Ascii (false, true, false, false, false, true, true,
+          false)), (String ((Ascii (true, false, false, false, false, true,
+          true, false)), (String ((Ascii (false, false, true, false, false,
+          true, true, false)), (String ((Ascii (true, true, false, false,
+          false, true, true, false)), (String ((Ascii (true, false, false,
+          false, false, true, true, false)), (String ((Ascii (true, true,
+          false, false, true, true, true, false)), (String ((Ascii (true,
+          false, true, false, false, true, true, false)),
+          EmptyString))))))))))))))
+   | None ->
+     String ((Ascii (false, true, false, false, false, true, true, false)),
+       (String ((Ascii (true, false, false, false, false, true, true,
+       false)), (String ((Ascii (false, false, true, false, false, true,
+       true, false)), (String ((Ascii (true, true, false, false, false, true,
+       true, false)), (String ((Ascii (true, false, false, false, false,
+       true, true, false)), (String ((Ascii (true, true, false, false, true,
+       true, true, false)), (String ((Ascii (true, false, true, false, false,
+       true, true, false)), EmptyString))))))))))))))
+
+(** val run_line4 : string -> string **)
+
+let run_line4 line =
+  match words line with
+  | [] ->
+    String ((Ascii (false, true, false, false, false, true, true, false)),
+      (String ((Ascii (true, false, false, false, false, true, true, false)),
+      (String ((Ascii (false, false, true, false, false, true, true, false)),
+      (String ((Ascii (false, false, true, true, false, true, true, false)),
+      (String ((Ascii (true, false, false, true, false, true, true, false)),
+      (String ((Ascii (false, true, true, true, false, true, true, false)),
+      (String ((Ascii (true, false, true, false, false, true, true, false)),
+      EmptyString)))))))))))))
+  | id :: l ->
+    (match l with
+     | [] ->
+       String ((Ascii (false, true, false, false, false, true, true, false)),
+         (String ((Ascii (true, false, false, false, false, true, true,
+         false)), (String ((Ascii (false, false, true, false, false, true,
+         true, false)), (String ((Ascii (false, false, true, true, false,
+         true, true, false)), (String ((Ascii (true, false, false, true,
+         false, true, true, false)), (String ((Ascii (false, true, true,
+         true, false, true, true, false)), (String ((Ascii (true, false,
+         true, false, false, true, true, false)), EmptyString)))))))))))))
+     | mode :: ts ->
+       if eqb1 mode (String ((Ascii (true, true, false, false, true, true,
+            true, false)), (String ((Ascii (false, false, false, false, true,
+            true, true, false)), (String ((Ascii (true, false, true, false,
+            false, true, true, false)), (String ((Ascii (true, true, false,
+            false, false, true, true, false)), EmptyString))))))))
+       then append id (append tab (run_spec ts))
+       else if eqb1 mode (String ((Ascii (false, true, true, false, true,
+                 true, true, false)), (String ((Ascii (true, false, false,
+                 false, false, true, true, false)), (String ((Ascii (false,
+                 false, true, true, false, true, true, false)), (String
+                 ((Ascii (true, false, true, false, true, true, true,
+                 false)), (String ((Ascii (true, false, true, false, false,
+                 true, true, false)), (String ((Ascii (false, true, false,
+                 false, true, true, false, false)), EmptyString))))))))))))
+            then append id (append tab (run_value2 ts))
+            else run_line3 line)
